@@ -99,6 +99,23 @@ def s1(ctx, rep):
         rep.bad("S1", "global_rng", construct, f, draws[0][0],
                 f"np.random/random.{'/'.join(names)} drawn from the process-global generator, reachable from a class that accepts "
                 f"random_seed ({' ← '.join(chain[:5])}): two objects created with the same seed diverge when the global state differs")
+    # a seed that was not given is recognised by `is None`: 0 is a legal seed (sweep over every function of the optimizer
+    # and backend packages that takes an optional integer seed)
+    from .common import numeric_optional_params, truthiness_uses
+    ns = 0
+    for f in sorted(P.functions.values(), key=lambda f: f.qualname):
+        if not f.module.name.startswith(("syne_tune.optimizer", "syne_tune.backend", "syne_tune.blackbox_repository")):
+            continue
+        for p_ in numeric_optional_params(f):
+            if "seed" not in p_:
+                continue
+            ns += 1
+            uses = truthiness_uses(f, p_)
+            rep.put(not uses, "S1", "guarded_by", f"{f.short}: optional seed `{p_}` is tested with `is None`, not for truth", f, uses[0] if uses else None, "",
+                    f"`{U(uses[0])[:70] if uses else ''}` treats `{p_} = 0` as 'no seed given': the object is then seeded at random (or from the "
+                    "global generator), so two objects created with random_seed=0 behave differently")
+    if ns < 3:
+        raise AnchorError(f"C11-S1: only {ns} optional integer seed parameters found")
     # the accepted fallback: generate_random_seed() without generator only when no seed was given
     gs = P.func("syne_tune.optimizer.schedulers.random_seeds.generate_random_seed")
     dflt = gs.param_default("random_state")
